@@ -37,7 +37,8 @@ SPEC = dict(
                   '+ source-regenerated methods (stateful-method translator, equality with the hand model proved for all inputs) and arithmetic lemmas'),
     translators=[('builder.py var-int byte lengths->Generated/VarLen.lean', arith.regenerator('VarLen')),
                  ('builder.py/tvm_bitarray.py store_* methods->Generated/BuilderOps.lean', bsops.regenerator('BuilderOps')),
-                 ('slice.py/tvm_bitarray.py load_*/preload_* methods->Generated/SliceOps.lean', bsops.regenerator('SliceOps'))],
+                 ('slice.py/tvm_bitarray.py load_*/preload_* methods->Generated/SliceOps.lean', bsops.regenerator('SliceOps')),
+                 ('builder.py/slice.py snake methods->Generated/SnakeOps.lean', bsops.regenerator('SnakeOps'))],
     design_ref='DESIGN.md §6 C06',
     rule='seeded sequences of typed values that fit a cell (ints of widths 1..257 at 0/1/max/top-bit/min/-1, var-ints of every byte-length '
          'class incl. top-bit-set values, coins, bits, bytes, refs, maybe-refs, addr_none/extern(len 0..511)/std(+anycast)), snake byte strings '
@@ -179,6 +180,90 @@ def snake(ctx, n, prefill):
         lops = ([f'sk:{prefill}'] if prefill else []) + ['lsn']
         res, rb, rr = S.exec_slice(b.end_cell(), lops)
         ctx.expect_model(sline(dag, len(dag) - 1, lops), f'ok {res} {rb} {rr}', f'snake load len {n} prefill {prefill}')
+
+
+def snake_refs(ctx, n, prefill, nrefs):
+    """store_snake_bytes into a builder that already holds `nrefs` references, against the closed form: the first (1023 - prefill) // 8
+    bytes go into this cell; anything beyond hangs under ONE more reference as 127-byte cells (refused when no slot is free, the head
+    bytes stay written); the chain is read back by walking the cells."""
+    from pytoniq_core.boc.builder import Builder
+    data = bytes((i * 11 + n) % 253 for i in range(n))
+    leaf = G.lib_build(LEAF_DAG)[0]
+    inp = {'len': n, 'prefill': prefill, 'refs': nrefs}
+    ctx.case(('snake-refs', n, prefill, nrefs), sample=inp)
+    ctx.count('snake-refs')
+    b = Builder()
+    if prefill:
+        b.store_uint(0, prefill)
+    for _ in range(nrefs):
+        b.store_ref(leaf)
+    try:
+        b.store_snake_bytes(data)
+        ok = True
+    except Exception:
+        ok = False
+    room = (1023 - prefill) // 8
+    want_ok = n <= room or nrefs < 4
+    if ok != want_ok:
+        ctx.fail('snake-store', f'store_snake_bytes of {n} bytes into a builder with {prefill} bits / {nrefs} refs ' + ('was refused' if want_ok else 'was accepted'),
+                 inp, ok, want_ok)
+        return
+    try:
+        head = b.bits.to01()[prefill:]
+        want_head = G.bytes_to_bits(data[:room])
+        if head != want_head:
+            ctx.fail('snake-store', 'the bytes written into the first cell are not the first (1023 - prefill) // 8 bytes', inp, head[:80], want_head[:80])
+            return
+        if not ok:
+            if len(b.refs) != nrefs:
+                ctx.fail('snake-store', 'a refused store_snake_bytes changed the references', inp, len(b.refs), nrefs)
+            return
+        want_refs = nrefs + (1 if n > room else 0)
+        if len(b.refs) != want_refs:
+            ctx.fail('snake-store', 'store_snake_bytes did not add exactly one reference for the tail', inp, len(b.refs), want_refs)
+            return
+        got, c, depth = b'', (b.refs[-1] if n > room else None), 0
+        while c is not None:
+            got += c.bits.tobytes()
+            if len(c.bits) % 8 or len(c.bits) > 1016 or len(c.refs) > 1:
+                ctx.fail('snake-store', 'a tail cell of the snake is not a byte string of at most 127 bytes with at most one reference', inp,
+                         [len(c.bits), len(c.refs)], '<= 1016 bits, <= 1 ref')
+                return
+            c = c.refs[0] if c.refs else None
+        if got != data[room:]:
+            ctx.fail('snake-store', 'the tail cells of the snake do not hold the remaining bytes in order', inp, got.hex()[:80], data[room:].hex()[:80])
+    except Exception as e:
+        ctx.fail('snake-store', f'the builder after store_snake_bytes cannot be inspected: {type(e).__name__}', inp, repr(e)[:100], 'cells')
+
+
+def src_search_snake(ctx):
+    """Search mode only: where the regenerated snake methods (Generated/SnakeOps.lean) differ from the hand model they are proved equal to
+    (evaluated by Lean on the validation scripts), the store / load of that length at that fill level goes through the snake oracles
+    (closed-form depth, raise point, round trip, cells of the chain).  True = a concrete failing input was found."""
+    n0 = len(ctx.failures)
+    pts, strs = [], []
+    for (fb, fr, toks), idx in bsops.diff_scripts(ctx, 'B', bsops.snake_builder_scripts(), snake=True):
+        for i in idx:
+            p = toks[i].split(':')
+            n = 0 if p[1] == '-' else len(p[1]) // 2
+            if i == 0 and p[0] == 'sn' and (n, fb, fr) not in pts:
+                pts.append((n, fb, fr))
+            if p[0] == 'sns' and (n, p[2] == '1', fb) not in strs:
+                strs.append((n, p[2] == '1', fb))
+    if bsops.diff_scripts(ctx, 'S', bsops.snake_slice_scripts(), snake=True):
+        pts += [(n, fb, 0) for n in (0, 1, 127, 128, 254, 300, 1000) for fb in (0, 8) if (n, fb, 0) not in pts]
+    for n, fb, fr in pts[:60]:
+        if fr == 0:
+            snake(ctx, n, fb)
+        snake_refs(ctx, n, fb, fr)
+        if len(ctx.failures) > n0:
+            return True
+    for n, pre, fb in strs[:30]:
+        if fb % 8 == 0:
+            snake_string(ctx, n, pre, fb)
+        if len(ctx.failures) > n0:
+            return True
+    return len(ctx.failures) > n0
 
 
 def snake_string(ctx, n, pre, prefill):
@@ -346,7 +431,7 @@ def src_search_methods(ctx):
 def run(ctx):
     rng = ctx.rng
     cells = G.lib_build(LEAF_DAG)
-    if ctx.search and (src_search(ctx, cells) or src_search_methods(ctx)):
+    if ctx.search and (src_search(ctx, cells) or src_search_methods(ctx) or src_search_snake(ctx)):
         return
     # context with a real dictionary cell (HashMap(8), 3 entries) for store_dict / load_dict / preload_dict
     ddag = LEAF_DAG + S.shift_dag(S.dict_dag(), len(LEAF_DAG))
@@ -407,6 +492,9 @@ def run(ctx):
     snake(ctx, 127 + 127 * 1023 + 1, 3)
     snake(ctx, 126 + 127 * 1023, 11)
     snake(ctx, 126 + 127 * 1023 + 1, 11)
+    for n in (0, 1, 126, 127, 128, 255, 300):
+        for prefill, nrefs in ((0, 1), (0, 3), (0, 4), (8, 4), (1016, 3), (1016, 4), (1023, 4), (3, 2)):
+            snake_refs(ctx, n, prefill, nrefs)
     api_extras(ctx)
 
 
@@ -418,5 +506,7 @@ def replay(ctx, payload):
             S._BIT_FORM[0] = form
             S._BITS_FORM[0] = form
             check_roundtrip(ctx, dag, G.lib_build(dag), inp['ops'], inp.get('tag', 'replay'))
+    elif 'len' in inp and 'prefill' in inp and 'refs' in inp:
+        snake_refs(ctx, int(inp['len']), int(inp['prefill']), int(inp['refs']))
     elif 'len' in inp and 'prefill' in inp:
         snake(ctx, int(inp['len']), int(inp['prefill']))
